@@ -1856,11 +1856,12 @@ class Translator:
         ps = ", ".join(self.cdecl(t, n) for (n, t) in f.params) or "void"
         return "%s(%s)" % (self.cdecl(f.ret, name or f.cname), ps)
 
-    def function_text(self, f, contract="", loopann=None, static=False):
+    def function_text(self, f, contract="", loopann=None, static=False, ghost_entry=()):
         self.loop_used = set()
         if f.body is None:
             return "%s\n%s;\n" % (self.signature(f), contract)
-        body = "".join(self.prs(s, 1, loopann) for s in f.body)
+        body = "".join("  %s /* ghost: snapshot at function entry */\n" % g for g in ghost_entry)
+        body += "".join(self.prs(s, 1, loopann) for s in f.body)
         if loopann:
             missing = set(loopann) - self.loop_used
             if missing:
